@@ -156,6 +156,12 @@ func (db *proverDB) postsOf(fn *ssa.Function) []post {
 					cands = append(cands, post{kind: "lenres<=lenparam", i: i, j: j})
 				}
 			}
+			// the length of a slice result equals an integer result (payload, payloadSize)
+			for g := 0; g < res.Len(); g++ {
+				if g != i && isIntLike(res.At(g).Type()) {
+					cands = append(cands, post{kind: "lenres==res", i: i, g: g})
+				}
+			}
 			for _, k := range ks {
 				if k > 0 {
 					cands = append(cands, post{kind: "lenres>=k", i: i, k: k})
@@ -258,6 +264,9 @@ func (p *prover) postGoalAtReturn(c post, ret *ssa.Return, facts *[]cons) ([]lin
 		return []lin{ge(p.lenLin(fn.Params[c.j], facts), p.lenLin(ret.Results[c.i], facts)).e}, true
 	case "lenres>=k":
 		return []lin{ge(p.lenLin(ret.Results[c.i], facts), konst(c.k)).e}, true
+	case "lenres==res":
+		a, b := p.lenLin(ret.Results[c.i], facts), p.toLin(ret.Results[c.g], facts)
+		return []lin{ge(a, b).e, ge(b, a).e}, true
 	case "lenresfld==resfld":
 		fv, gv := retField(ret.Results[c.i], c.f), retField(ret.Results[c.i], c.g)
 		if fv == nil || gv == nil {
@@ -348,6 +357,14 @@ func (p *prover) callFacts(call *ssa.Call, facts *[]cons, success bool) {
 			} else if c.j < len(args) {
 				*facts = append(*facts, ge(p.lenLin(args[c.j], facts), at))
 			}
+		case "lenres==res":
+			rv, gv := resultValue(call, c.i), resultValue(call, c.g)
+			if rv == nil || gv == nil {
+				continue
+			}
+			a := atomLin(atom{v: p.rep(rv), isLen: true})
+			b := atomLin(atom{v: p.rep(gv)})
+			*facts = append(*facts, ge(a, b), ge(b, a), cons{a.clone()})
 		case "lenresfld==resfld", "lenresfld<=lenparam", "resfld>=k":
 			rv := resultValue(call, c.i)
 			if rv == nil {
